@@ -30,6 +30,7 @@ def run(rep, tier):
     multipolygon_table(rep, F)
     propagation(rep, F)
     delegation(rep, F)
+    self_intersection(rep, F)
 
 
 def defaults(rep, F):
@@ -292,3 +293,56 @@ def delegation(rep, F):
             rep.bad("R14.5", "Geometry", "variants not validated: %s" % sorted(set(gv) - got), where=fn.loc())
     except (KeyError, Unanalysable) as e:
         rep.bad("R14.5", "Geometry:anchor", str(e))
+
+
+def self_intersection(rep, F):
+    """R14.6: the ring simplicity helper is the complete pairwise test: its only decisions are the two loop iterators, `i == j`, the exact
+    segment predicate and the two shared-end-point exemptions; `false` is returned only after both loops are exhausted."""
+    from .c01 import opaque
+    from ..symex import bare
+    rep.rule("R14.6", "linestring_has_self_intersection: decisions are only {loop iterators, i == j, line.intersects(other), line.start == other.end, line.end == other.start}; "
+                      "true iff i != j, intersects and neither end-point exemption; false only when the pair loops are exhausted (no shortcut)")
+    try:
+        fn = F.one(r"validation::utils::linestring_has_self_intersection$", crates=("geo",))
+        ps = opaque(F, loop_bound=1).run(fn)
+    except (KeyError, Unanalysable) as e:
+        rep.bad("R14.6", "anchor", str(e))
+        return
+    kinds = [("next", re.compile(r"^discr\(next\(")), ("idx", re.compile(r"^\(\(next\(.*\) as Some\)\.0\.0 == \(next\(.*\) as Some\)\.0\.0\)$")),
+             ("int", re.compile(r"^intersects\(\(next\(.*\) as Some\)\.0\.1, \(next\(.*\) as Some\)\.0\.1\)$")),
+             ("se", re.compile(r"^\(\(next\(.*\) as Some\)\.0\.1\.start == \(next\(.*\) as Some\)\.0\.1\.end\)$")),
+             ("es", re.compile(r"^\(\(next\(.*\) as Some\)\.0\.1\.end == \(next\(.*\) as Some\)\.0\.1\.start\)$"))]
+    n = 0
+    for p in ps:
+        if p.kind == "cut":
+            continue
+        seq = []
+        for t, v in p.pc:
+            b = bare(t)
+            k = next((name for name, rx in kinds if rx.match(b)), None)
+            if k is None:
+                rep.bad("R14.6", "foreign-decision", "the result depends on `%s` (= %s), which is not part of the pairwise segment test: a ring-level shortcut decides simplicity "
+                        "without looking at the segment pairs" % (b[:120], v), where=fn.loc())
+                return
+            seq.append((k, v))
+        n += 1
+        r = bare(p.ret) if p.ret is not None else p.kind
+        if r == "True":
+            tail = seq[-4:]
+            if tail != [("idx", 0), ("int", 1), ("se", 0), ("es", 0)]:
+                rep.bad("R14.6", "true-condition", "true is returned on %s; expected i != j, intersects, start != other.end, end != other.start" % tail, where=fn.loc())
+                return
+        elif r == "False":
+            if not seq or seq[-1] != ("next", 0):
+                rep.bad("R14.6", "false-before-exhaustion", "false is returned before the pair loops are exhausted (last decisions %s)" % seq[-2:], where=fn.loc())
+                return
+        else:
+            rep.bad("R14.6", "result", "unexpected result %s" % r[:60], where=fn.loc())
+            return
+    if n < 5:
+        rep.bad("R14.6", "floor", "only %d table rows" % n, where=fn.loc())
+    else:
+        rep.ok("R14.6", "pairwise-table[%d rows]" % n)
+    # who calls it: every ring of a polygon (exterior and interiors) and line strings are tested
+    users = sorted({short(g.path) for g in F.lib_fns(("geo",)) for c in g.calls() if (c.path or "").endswith("utils::linestring_has_self_intersection")})
+    rep.info["self_intersection_callers"] = users
